@@ -454,6 +454,24 @@ def r_tight(ctx, rep):
         pushes = _cells_pushes(fn)
         n_push = 0
         row_binding = None
+        # one loop for both settings: `let first_row = match header_row { FirstNonEmptyRow => 0, Row(n) => n };` and a
+        # single push under `cell.pos.0 >= first_row` (row 0 keeps everything)
+        merged = {}        # lid of such a local -> lids bound by its HeaderRow::Row arm
+        for l_ in walk_k(fn.body, "Let"):
+            i_ = unwrap(l_["init"]) if l_.get("init") is not None else None
+            if isinstance(i_, dict) and i_.get("k") == "Match" and l_["pat"].get("k") == "Binding":
+                zero = rown = None
+                for a_ in i_.get("arms", []):
+                    v_ = pat_variant(a_["pat"]) or ""
+                    if v_.endswith("HeaderRow::FirstNonEmptyRow") and lit_value(a_["body"]) == 0:
+                        zero = True
+                    if v_.endswith("HeaderRow::Row"):
+                        bl_ = {lid for _, lid in pat_bindings(a_["pat"])}
+                        pl_ = path_local(a_["body"])
+                        if pl_ and pl_[1] in bl_:
+                            rown = bl_
+                if zero and rown:
+                    merged[l_["pat"]["lid"]] = rown
         for n, anc in pushes:
             if n["name"] != "push":
                 continue
@@ -485,8 +503,16 @@ def r_tight(ctx, rep):
                         v = pat_variant(a["pat"])
                         if v and v.endswith("HeaderRow::Row") and any(y is n for y in walk(a["body"])):
                             hr = (a, {lid for _, lid in pat_bindings(a["pat"])})
+            if hr is None and merged:
+                from .kit import reach_conds as _rc
+                for ce_ in _rc(n, anc):
+                    for c_ in walk_k(ce_, "Binary"):
+                        for side_ in (c_["l"], c_["r"]):
+                            pl_ = path_local(side_)
+                            if pl_ and pl_[1] in merged:
+                                hr = (None, {pl_[1]})
             if hr:
-                row_binding = hr
+                row_binding = row_binding or hr
                 key = "%s|R-TIGHT|push#%d|row-filter" % (fn.name, n_push)
                 ok = False
                 why = "no enclosing `if` compares the cell's row with the header row"
@@ -523,7 +549,7 @@ def r_tight(ctx, rep):
                 rep.violation("R-TIGHT", key, loc(bad[0]), "%s: a cell is kept or dropped by a test on its position other than `row >= header row` (a cell on the last row / column of the grid, or any cell the test misjudges, silently disappears from the range)" % fn.name)
             else:
                 rep.holds("R-TIGHT", key, loc(n), "no condition on the way to the push looks at the cell's position except the header-row comparison")
-        if n_push < 2:
+        if n_push < (1 if (merged and row_binding) else 2):
             rep.anchor_missing("R-TIGHT", "cells.push sites in %s (found %d)" % (fn.name, n_push))
         # (c) the pad: insert(0, Cell{pos:(n, ..), val: Empty}) guarded by first.pos.0 != n
         ins = [(n, anc) for n, anc in pushes if n["name"] == "insert"]
@@ -532,7 +558,12 @@ def r_tight(ctx, rep):
             rep.violation("R-TIGHT", key, loc(fn.raw), "%s: no padding cell is inserted at the header row (the range would start at the first non-empty row >= n instead of exactly at row n)" % fn.name)
             continue
         n, anc = ins[0]
-        lids = row_binding[1]
+        lids = set(row_binding[1])
+        for x_ in anc:          # the pad may sit under its own `if let HeaderRow::Row(n) = header_row`
+            if x_.get("k") == "Match":
+                for a_ in x_.get("arms", []):
+                    if (pat_variant(a_["pat"]) or "").endswith("HeaderRow::Row") and any(y is n for y in walk(a_["body"])):
+                        lids |= {lid for _, lid in pat_bindings(a_["pat"])}
         ok_idx = lit_value(n["args"][0]) == 0
         ok_row = False
         ok_val = False
@@ -544,6 +575,8 @@ def r_tight(ctx, rep):
             for f in s["fields"]:
                 if f["name"] == "pos":
                     t = unwrap(f["e"])
+                    if isinstance(t, dict) and t.get("k") == "Path" and _li(fn.body, t) is not None:      # `let pos = (n, col); Cell { pos, .. }`
+                        t = unwrap(_li(fn.body, t)["init"])
                     if t.get("k") == "Tup" and t["es"] and path_local(t["es"][0]) and path_local(t["es"][0])[1] in lids:
                         ok_row = True
                 if f["name"] == "val" and "Empty" in variants_built(f["e"], "DataRef"):
